@@ -103,6 +103,80 @@ func fdGuard(fn *ssa.Function, fd ssa.Value, want string, at ssa.Instruction) bo
 			return true
 		}
 	}
+	return fdGuardAcross(fn, fd, want, at, 0)
+}
+
+// fdGuardAcross: the kind test was made on the other side of a call boundary:
+// the descriptor is the result of an in-repo helper all of whose successful
+// returns (nil error) hand back a descriptor tested in the helper, used here
+// where that error is nil; or it is a parameter of an unexported, only directly
+// called function every call site of which passes a tested descriptor.
+func fdGuardAcross(fn *ssa.Function, fd ssa.Value, want string, at ssa.Instruction, depth int) bool {
+	if depth > 2 {
+		return false
+	}
+	switch x := fd.(type) {
+	case *ssa.Extract:
+		call, ok := x.Tuple.(*ssa.Call)
+		if !ok || call.Referrers() == nil {
+			return false
+		}
+		h := call.Common().StaticCallee()
+		if h == nil || !inRepoFn(h) || len(h.Blocks) == 0 {
+			return false
+		}
+		nres := h.Signature.Results().Len()
+		if nres < 2 || !isErrorType(h.Signature.Results().At(nres-1).Type()) {
+			return false
+		}
+		var errv ssa.Value
+		for _, ref := range *call.Referrers() {
+			if ex, ok := ref.(*ssa.Extract); ok && ex.Index == nres-1 {
+				errv = ex
+			}
+		}
+		if errv == nil || !valueNilGuarded(fn, errv, at) {
+			return false
+		}
+		found := false
+		for _, b := range h.Blocks {
+			ret, ok := b.Instrs[len(b.Instrs)-1].(*ssa.Return)
+			if !ok || len(ret.Results) != nres {
+				continue
+			}
+			if c, isC := ret.Results[nres-1].(*ssa.Const); !isC || !c.IsNil() {
+				continue // an error return
+			}
+			if !fdGuard(h, ret.Results[x.Index], want, ret) {
+				return false
+			}
+			found = true
+		}
+		return found
+	case *ssa.Parameter:
+		if theProgram == nil {
+			return false
+		}
+		sites, ok := theProgram.directCallSites(fn)
+		if !ok {
+			return false
+		}
+		pi := -1
+		for i, q := range fn.Params {
+			if q == x {
+				pi = i
+			}
+		}
+		if pi < 0 {
+			return false
+		}
+		for _, c := range sites {
+			if pi >= len(c.Common().Args) || !fdGuard(c.Parent(), c.Common().Args[pi], want, c) {
+				return false
+			}
+		}
+		return true
+	}
 	return false
 }
 
